@@ -32,6 +32,7 @@ static void body(mvprog::PT& p) {
     for (size_t i = 0; i < ops.size(); i++) {
         char op = ops[i];
         if (op == 'y') { thread_yield(); continue; }
+        if (op == 'p') { int npad = pmc_choose(3, PMC_PROG, 0, "pad yields"); for (int kk = 0; kk < npad; kk++) thread_yield(); continue; }   // every arrival order on one vCPU
         if (op == 'D') {
             auto s = new (G->priv_buf[p.idx]) semaphore(0);
             G->priv[p.idx] = s; G->priv_ready[p.idx] = 1;
@@ -133,6 +134,11 @@ static const PmcConfig CFG[] = {
     {"0i:D|d0",               3, {2,3}, {0,0}, {0,0}, {0,0}, "destroy right after wait() returns (other vCPU signals)"},
     {"0i:D|@d0",              3, {2,3}, {0,0}, {0,0}, {0,0}, "destroy right after wait() returns (OS thread signals)"},
     {"0i:D,d0",               3, {0,0}, {0,0}, {0,0}, {0,0}, "same vCPU"},
+    {"0i:pw1,pw1,ps1ps1",     3, {0,0}, {0,0}, {0,0}, {0,0}, "one vCPU, every arrival order"},
+    {"0i:pW1,pw1,ps1,ppi0",   3, {0,0}, {0,0}, {0,0}, {0,0}, "one vCPU: interrupt before / after the resume"},
+    {"0i:pt1,pw1,ps1ps1:tdev",3, {0,0}, {1,2}, {0,0}, {0,0}, "one vCPU: timeout vs signal in every order"},
+    {"0o:pw2,pw1,ps1ps2",     3, {0,0}, {0,0}, {0,0}, {0,0}, "one vCPU, out-of-order resume"},
+    {"1i:pw2,pt1,ps1,ppi1:tdev", 2, {0,0}, {1,2}, {0,0}, {0,0}, ""},
     {"0i:w1,t1|s1|s1:tdev",   2, {1,2}, {1,1}, {0,0}, {2,2}, "three vCPUs"},
     {"0o:w1,w2,w1|s2s2",      2, {1,2}, {0,0}, {0,0}, {0,0}, "ooo with three waiters"},
 };
